@@ -41,7 +41,9 @@ pub fn run_batch(ctx: &mut Ctx, kind: &str, cases: Vec<text::Case>, with_mock: b
 
 fn main() {
     if let Ok(path) = std::env::var("H_C18_ADHOC") {
-        mzkh::quiet_panics();
+        if std::env::var("H_C18_DEBUG").is_err() {
+            mzkh::quiet_panics();
+        }
         for line in std::fs::read_to_string(path).unwrap().lines() {
             let line = line.trim();
             if line.is_empty() || line.starts_with('#') {
